@@ -271,7 +271,8 @@ impl<TS: TimeSource> BeaconSerializer<TS> {
             if let Some(found) = data[start_pos..].find(&end) {
                 let end_pos = start_pos + found;
                 peers.append(&mut self.peerlist_decode(&data[start_pos..end_pos], ttl_hours));
-                pos = start_pos
+                // the next begin marker may overlap this one (text ending in a partial begin marker in front of a beacon)
+                pos += 1
             } else {
                 break;
             }
